@@ -269,7 +269,7 @@ def classify(props):
             if status == "FAILURE":
                 out["unwind_fail"].append((name, desc, r.get("sourceLocation", {})))
             continue
-        is_user = pclass == "assertion" or re.match(r"^C\d\d", desc) is not None
+        is_user = pclass == "assertion" or re.match(r"^\"?C\d\d", desc) is not None
         if status == "FAILURE":
             (out["assert_fail"] if is_user else out["builtin_fail"]).append((name, desc, r.get("sourceLocation", {})))
         else:
